@@ -33,6 +33,11 @@ CT_SPECS = [
     ("application", "x-thing", {"k": "v w", "z": "é"}),
     ("text", "x-log", {"charset": "latin-1", "origin": "a;b=c"}),
     ("text", "csv", {"charset": "utf8", "columns": "id,name,status"}),
+    ("text", "plain", {"charset": "UTF-8"}),                                     # upper case in a value
+    ("application", "vnd.x+json", {"k": " v "}),                                 # '+' / '.' in the subtype, blanks at the edges of a value
+    ("text", "x-empty", {"k": ""}),                                              # an empty value
+    ("text", "x-long", {"k": "x" * 90}),                                         # longer than a folded header line
+    ("application", "x-thing", {"a": "1", "b": "2", "c": "3", "d": "utf-8''a%20b"}),   # four parameters, an RFC 2231 look-alike
 ]
 TEXT_CHUNKS = st.sampled_from([b"", b"a", b"line one\n", "é".encode("utf8"), b"  ", b"x y", "中文".encode("utf8"), b"tail"] * 3 +
                               [b"y" * 70000, ("é" * 3000).encode("utf8")])       # and, now and then, a chunk beyond any buffer size
@@ -44,7 +49,7 @@ NAMES = st.sampled_from(["log", "traceback", "détail", "a b", "x", "reason2", "
 def s_detail(draw):
     cti = draw(st.integers(0, len(CT_SPECS) - 1))
     ct = CT_SPECS[cti]
-    is_utf8 = ct[0] == "text" and ct[2].get("charset") == "utf8"
+    is_utf8 = ct[0] == "text" and (ct[2].get("charset") or "").lower().replace("-", "") == "utf8"
     chunks = draw(st.lists(TEXT_CHUNKS if is_utf8 else st.one_of(TEXT_CHUNKS, BIN_CHUNKS), max_size=4))
     data = b"".join(chunks)
     if len(data) >= 2 and draw(st.integers(0, 2)) == 0:
